@@ -1251,16 +1251,54 @@ def eval_points(case):
     return list(case["xs"]) + [min(case["x"]), max(case["x"])]
 
 
-HIST_KINDS = ("switch", "switch", "plot", "global-mc", "reread")
+HIST_KINDS = ("switch", "switch", "plot", "global-mc", "reread", "config", "session", "session")
+
+# SESSION NOTES.  A fit result is used for as long as the session lasts: between the fit and the judged
+# reads the user does what programs do between a fit and a report -- changes the print settings and
+# puts them back (by the setters, by get_settings().reset(), by reset_default_configuration()), resets
+# the configuration without having changed anything, clears / adds unit definitions, makes other
+# fits (of other data, of the same data again) and other measurements with correlations of their
+# own, sends a request that is rejected.  None of these requests names the fit result, so the result
+# must read as before and its parameters must still carry the covariances the fit registered.
+# Excluded, with the reason: q.reset_correlations() -- it is the documented request to forget every
+# registered correlation, the parameters' among them; what a fit result means after it is not said
+# by the property.
+SESSION_STEPS = ("reset_default_configuration", "settings.reset", "clear_unit_definitions",
+                 "define_unit", "other-fit", "same-fit-again", "other-measurements", "fault",
+                 "reset_default_configuration")
+CONFIG_CHANGES = (["print_style", "scientific"], ["print_style", "latex"], ["unit_style", "fraction"],
+                  ["sig_figs_error", 3], ["sig_figs_value", 4], ["plot_dimensions", [8.0, 6.0]],
+                  ["mc_sample_size", 500])
+CONFIG_BACK = ("reset_default_configuration", "reset_default_configuration", "settings.reset", "setters")
+CONFIG_DEFAULTS = {"print_style": "default", "unit_style": "exponents", "plot_dimensions": [6.4, 4.8],
+                   "mc_sample_size": 10000}
 
 
-def gen_hist(rng, plot=None):
+def gen_config_step(rng, back=None):
+    """["config", [[setting, value, route]...], read, back]: print settings (and other settings)
+    changed through the function or the attribute of the settings object, the result read or not
+    while they are in force, then the default configuration restored by `back`"""
+    back = back or rng.choice(CONFIG_BACK)
+    pool = [c for c in CONFIG_CHANGES if back != "setters" or c[0] in CONFIG_DEFAULTS]
+    chosen, seen = [], set()
+    for _ in range(rng.choice([1, 2, 2, 3])):
+        c = rng.choice(pool)
+        if c[0] not in seen:
+            seen.add(c[0])
+            chosen.append([c[0], c[1], rng.choice(["function", "attribute"])])
+    return ["config", chosen, rng.choice(["str", "str", "fit", "none"]), back]
+
+
+def gen_hist(rng, plot=None, session=None):
     """what happens to the result between two rounds of evaluating fit_function:
     ["switch", i, form, spelling]  a value returned for point i (asked as scalar / list / array) gets
                                    the Monte Carlo method (documented: affects this value alone) and is read
     ["plot"]                       the result is drawn (Plot.fit's own figure, or plot(result)) and saved
     ["global-mc", i]               the global error method is Monte Carlo while point i is evaluated and read
-    ["reread", i]                  a returned value is read twice"""
+    ["reread", i]                  a returned value is read twice
+    ["config", changes, read, back]  see gen_config_step
+    ["session", what]              a session-level request that does not name the result (SESSION NOTES)
+    `session`: a step of that kind is put in deliberately ("config:<back>" or one of SESSION_STEPS)"""
     steps = []
     for _ in range(rng.choice([1, 1, 2, 3])):
         k = rng.choice(HIST_KINDS)
@@ -1271,11 +1309,92 @@ def gen_hist(rng, plot=None):
                           rng.choice(["str", "enum"])])
         elif k == "plot":
             steps.append([k])
+        elif k == "config":
+            steps.append(gen_config_step(rng))
+        elif k == "session":
+            steps.append([k, rng.choice(SESSION_STEPS)])
         else:
             steps.append([k, rng.randrange(6)])
     if plot and not any(s[0] == "plot" for s in steps):
         steps.insert(rng.randrange(len(steps) + 1), ["plot"])
+    if session:
+        st = gen_config_step(rng, back=session[7:]) if session.startswith("config:") else ["session", session]
+        steps.insert(rng.randrange(len(steps) + 1), st)
     return steps
+
+
+def _apply_setting(q, name, value, route):
+    st = q.get_settings()
+    if name == "print_style":
+        if route == "function":
+            q.set_print_style(value)
+        else:
+            st.print_style = value
+    elif name == "unit_style":
+        if route == "function":
+            q.set_unit_style(value)
+        else:
+            st.unit_style = value
+    elif name == "sig_figs_error":
+        (q.set_sig_figs_for_error if route == "function" else st.set_sig_figs_for_error)(value)
+    elif name == "sig_figs_value":
+        (q.set_sig_figs_for_value if route == "function" else st.set_sig_figs_for_value)(value)
+    elif name == "plot_dimensions":
+        if route == "function":
+            q.set_plot_dimensions(tuple(value))
+        else:
+            st.plot_dimensions = tuple(value)
+    elif name == "mc_sample_size":
+        if route == "function":
+            q.set_monte_carlo_sample_size(value)
+        else:
+            st.monte_carlo_sample_size = value
+    else:
+        raise KeyError(name)
+
+
+def _session_step(q, r, case, what, log):
+    """a request of the session that does not name the fit result"""
+    if what == "reset_default_configuration":
+        q.reset_default_configuration()
+    elif what == "settings.reset":
+        q.get_settings().reset()
+    elif what == "clear_unit_definitions":
+        q.clear_unit_definitions()
+    elif what == "define_unit":
+        q.define_unit("N", "kg*m/s^2")
+        f = q.Measurement(4.0, 0.5, unit="N")
+        log.append(["define_unit", str(f.unit)])
+    elif what == "other-fit":
+        # other data, a pre-set model with parameters and correlations of its own
+        xs = [0.0, 1.0, 2.0, 3.0, 4.0, 5.0]
+        ys = [1.1, 2.9, 5.2, 6.8, 9.1, 11.2]
+        o = q.fit(xs, ys, "linear", yerr=0.2)
+        log.append(["other-fit", float(o[0].value), float(o[1].error),
+                    float(q.get_correlation(o[0], o[1]))])
+    elif what == "same-fit-again":
+        # the same request once more: a second result with parameter objects of its own
+        o = call_fit(q, case, holder={})
+        log.append(["same-fit-again", [float(p.value) for p in o.params]])
+    elif what == "other-measurements":
+        a = q.Measurement(5.0, 0.5)
+        b = q.Measurement(3.0, 0.2)
+        q.set_covariance(a, b, 0.05)
+        c = a * b
+        log.append(["other-measurements", float(c.value), float(c.error),
+                    float(q.get_correlation(a, b))])
+    elif what == "fault":
+        # rejected requests (each raises; nothing may have changed)
+        for req in (lambda: q.set_print_style("nonsense"), lambda: q.set_sig_figs_for_error(-1),
+                    lambda: q.set_error_method("guess"), lambda: q.set_monte_carlo_sample_size(-5),
+                    lambda: q.set_correlation(r[0], r[0] if len(r.params) < 2 else r[1], 7.0)):
+            try:
+                req()
+                log.append(["fault", "accepted"])
+            except Exception as e:  # noqa: BLE001
+                log.append(["fault", type(e).__name__])
+    else:
+        raise KeyError(what)
 
 
 def run_hist(q, r, case, holder, out):
@@ -1320,6 +1439,24 @@ def run_hist(q, r, case, holder, out):
         elif k == "reread":
             v = r.fit_function(pts[st[1]])
             log.append(["reread", float(v.value), float(v.error), float(v.value), float(v.error)])
+        elif k == "config":
+            _, changes, read, back = st
+            for name, value, route in changes:
+                _apply_setting(q, name, value, route)
+            if read == "str":
+                log.append(["config", str(r)])
+            elif read == "fit":
+                v = r.fit_function(pts[0])
+                log.append(["config", str(v), float(v.value), float(v.error)])
+            if back == "reset_default_configuration":
+                q.reset_default_configuration()
+            elif back == "settings.reset":
+                q.get_settings().reset()
+            else:
+                for name, _value, route in changes:
+                    _apply_setting(q, name, CONFIG_DEFAULTS[name], route)
+        elif k == "session":
+            _session_step(q, r, case, st[1], log)
         else:
             raise KeyError(k)
     out["hist_log"] = log
